@@ -46,6 +46,7 @@ M = [
  ("decls_mark_after_deps", "C07", "interface.go", "\t\tgenerated[id] = true\n\n\t\tfor _, dep := range declDeps[id] {\n\t\t\tdepid, ok := nameDecls[dep]\n\t\t\tif ok {\n\t\t\t\tprocessDecl(depid, dep)\n\t\t\t}\n\t\t}\n", "\t\tfor _, dep := range declDeps[id] {\n\t\t\tdepid, ok := nameDecls[dep]\n\t\t\tif ok && depid != id {\n\t\t\t\tprocessDecl(depid, dep)\n\t\t\t}\n\t\t}\n\t\tgenerated[id] = true\n"),
  ("filterimports_drops", "C04", "interface.go", "\t\tdefault:\n\t\t\tnonImports = append(nonImports, d)", "\t\tdefault:\n\t\t\tif len(nonImports) < 1000 {\n\t\t\t\tnonImports = append(nonImports, d)\n\t\t\t}"),
  ("coqtype_ptr_dep", "C04", "types.go", "\tcase *ast.StarExpr:\n\t\treturn ctx.ptrType()", "\tcase *ast.StarExpr:\n\t\tif pointee, ok := e.X.(*ast.Ident); ok {\n\t\t\tctx.dep.addDep(pointee.Name)\n\t\t}\n\t\treturn ctx.ptrType()"),
+ ("variable_type_dep", "C04", "goose.go", "func (ctx Ctx) variable(s *ast.Ident) coq.Expr {\n\tif ctx.isGlobalVar(s) {", "func (ctx Ctx) variable(s *ast.Ident) coq.Expr {\n\tif n, ok := ctx.typeOf(s).(*types.Named); ok {\n\t\tctx.dep.addDep(n.Obj().Name())\n\t}\n\tif ctx.isGlobalVar(s) {"),
  ("translate_skip_empty", "C17", "cmd/goose/main.go", "\t\t\tif !ignoreErrors {\n\t\t\t\tcontinue\n\t\t\t}", "\t\t\tif !ignoreErrors || len(f.Decls) == 0 {\n\t\t\t\tcontinue\n\t\t\t}"),
  ("testgen_go_star", "C18", "cmd/test_gen/main.go", "(?:test)(?P<name>[[:alnum:]]+)(?:\\(.*)`)", "(?:test)(?P<name>[[:alnum:]]*)(?:\\(.*)`)"),
  ("testgen_coq_skips_less", "C18", "cmd/test_gen/main.go", "\t\t\tif strings.HasSuffix(file.Name(), \"~\") ||\n\t\t\t\tstrings.HasSuffix(file.Name(), \".gold.v\") ||\n\t\t\t\tstrings.HasSuffix(file.Name(), \"_test.go\") {\n\t\t\t\tcontinue\n\t\t\t}\n\n\t\t\tf, err := os.Open(path.Join(srcDir, file.Name()))\n\t\t\tif err != nil {\n\t\t\t\tpanic(err)\n\t\t\t}\n\n\t\t\tfmt.Fprintf(out, \"(* %s *)", "\t\t\tif strings.HasSuffix(file.Name(), \"~\") ||\n\t\t\t\tstrings.HasSuffix(file.Name(), \".gold.v\") {\n\t\t\t\tcontinue\n\t\t\t}\n\n\t\t\tf, err := os.Open(path.Join(srcDir, file.Name()))\n\t\t\tif err != nil {\n\t\t\t\tpanic(err)\n\t\t\t}\n\n\t\t\tfmt.Fprintf(out, \"(* %s *)"),
